@@ -158,6 +158,10 @@ def run_check(prop: str, tier: str) -> int:
     finally:
         pool.close()
     t_main = time.monotonic() - t_start
+    aborted = results.pop("__aborted__", None)
+    if aborted:
+        print(f"[{prop}] batch cut short after repeated hangs/crashes: "
+              f"{aborted['skipped']} scenarios not executed", flush=True)
 
     harness_errors = []
     lost_recovered = 0
@@ -165,21 +169,40 @@ def run_check(prop: str, tier: str) -> int:
     # scenarios that hung or killed their worker: confirm alone, fresh process
     lost_keys = sorted((k for k, r in results.items() if "lost" in r),
                        key=_key_order)
-    confirmed: dict = {}
+    # confirm up to three per kind alone, each in a fresh interpreter (in
+    # parallel); the others of that kind inherit the verdict
+    to_confirm: dict = {}
+    for key in lost_keys:
+        kind = results[key]["lost"]
+        if len(to_confirm.setdefault(kind, [])) < 3:
+            to_confirm[kind].append(key)
+    alone_res: dict = {}
+    if lost_keys:
+        from concurrent.futures import ThreadPoolExecutor
+        flat = [k for ks in to_confirm.values() for k in ks]
+        with ThreadPoolExecutor(max_workers=max(1, len(flat))) as tpe:
+            futs = {k: tpe.submit(_rerun_alone, prop, engine, root,
+                                  results[k]["item"], cap, workdir)
+                    for k in flat}
+            for k, f in futs.items():
+                alone_res[k] = f.result()
     for key in lost_keys:
         r = results[key]
-        if len(confirmed.get(r["lost"], [])) >= 3:
-            # three scenarios of this kind were already confirmed alone
-            doc0 = r["item"][3] or engine.generate(
-                core.scenario_rng(root, r["item"][1]["name"], r["item"][2]),
-                r["item"][1])
-            alone = {"rc": confirmed[r["lost"]][0], "res": None,
-                     "err": "not re-run alone (3 others confirmed)",
-                     "doc": doc0}
+        if key in alone_res:
+            alone = alone_res[key]
         else:
-            alone = _rerun_alone(prop, engine, root, r["item"], cap, workdir)
-            if alone["res"] is None:
-                confirmed.setdefault(r["lost"], []).append(alone["rc"])
+            ref = alone_res[to_confirm[r["lost"]][0]]
+            if ref["res"] is not None:
+                # the confirmed ones recovered: re-run this one as well
+                alone = _rerun_alone(prop, engine, root, r["item"], cap,
+                                     workdir)
+            else:
+                doc0 = r["item"][3] or engine.generate(
+                    core.scenario_rng(root, r["item"][1]["name"],
+                                      r["item"][2]), r["item"][1])
+                alone = {"rc": ref["rc"], "res": None,
+                         "err": "not re-run alone (others confirmed)",
+                         "doc": doc0}
         if alone["res"] is not None:
             lost_recovered += 1
             rr = alone["res"]
@@ -400,6 +423,8 @@ def run_check(prop: str, tier: str) -> int:
             "components": engine.COMPONENTS,
             "determinism_selftest": selftest,
             "lost_scenarios_recovered": lost_recovered,
+            "scenarios_skipped_after_repeated_hangs":
+                aborted["skipped"] if aborted else 0,
             "known_findings_hit": len(known_hits),
             "violations_reported": _jsonable(reported),
             "harness_errors": [h[1][-600:] for h in harness_errors[:5]],
